@@ -3,3 +3,4 @@ import Ixd.GC2
 import Ixd.RmProofs
 import Ixd.AddProofs
 import Ixd.GCProofs
+import Ixd.GCExact
